@@ -20,7 +20,7 @@ from ..report import AnalysisError, Ob
 from ..term import Resolver, pmatch, find_all, abstract, anf_of
 
 REL = "inference/pdf/kde.py"
-FLOORS = {"kernel-form": 2, "region-tables": 3, "truncation-bound": 1, "units": 3, "units-result-types": 3}
+FLOORS = {"region-provenance": 2, "kernel-form": 2, "region-tables": 3, "truncation-bound": 1, "units": 3, "units-result-types": 3}
 
 EXPECTED = {"__call__": "Lin(-1,0)", "cdf": "Lin(0,0)", "attr:h": "Lin(1,0)", "attr:mode": "Lin(1,1)"}
 
@@ -194,6 +194,45 @@ def run(prog, tier):
     obs.append(struct_ob("region-tables", f"{ci.module.name}.GaussianKDE[pdf/cdf siblings]", all(both),
                          "pdf and cdf must group the query points with the same tree look-up and use the same slice table", REL,
                          ci.node.lineno))
+
+    # ---------------------------------------------------------------- region provenance (who may compute a region index)
+    n_sub = 0
+    for mname, fm in ci.methods.items():
+        if mname == "__init__":
+            continue
+        rm = Resolver(fm, prog, ci.module, ci)
+        bad = []
+        for n in ast.walk(fm):
+            if isinstance(n, ast.Subscript) and U(n.value) in ("self.slices", "self.cdf_offsets"):
+                n_sub += 1
+                idx = n.slice
+                ok_idx = False
+                if isinstance(idx, ast.Name):
+                    # a loop variable over the regions returned by the tree look-up
+                    for lp in ast.walk(fm):
+                        if isinstance(lp, ast.For) and idx.id in [x.id for x in ast.walk(lp.target) if isinstance(x, ast.Name)] \
+                                and any(x is n for b_ in lp.body for x in ast.walk(b_)):
+                            it = rm.term(lp.iter, lp)
+                            tgt = lp.target
+                            pos = [U(e) for e in tgt.elts].index(idx.id) if isinstance(tgt, ast.Tuple) and idx.id in [U(e) for e in tgt.elts] else None
+                            if isinstance(it, ast.Call) and U(it.func) == "zip" and pos is not None and pos < len(it.args):
+                                ok_idx = pmatch(it.args[pos], "self.tree.region_groups(_)[0]") is not None
+                            elif pos is None:
+                                ok_idx = pmatch(it, "self.tree.region_groups(_)[0]") is not None
+                if not ok_idx:
+                    t = rm.term(idx, rm.stmt_of(n))
+                    ok_idx = isinstance(t, ast.Subscript) and isinstance(t.value, ast.Call) and U(t.value.func).startswith("self.tree.") \
+                        or (isinstance(t, ast.Call) and U(t.func).startswith("self.tree."))
+                if not ok_idx:
+                    bad.append((n.lineno, U(n), U(rm.term(idx, rm.stmt_of(n)))[:160]))
+        if bad:
+            l_, t_, i_ = bad[0]
+            obs.append(struct_ob("region-provenance", qual(ci, fm), False,
+                                 f"`{t_}` (line {l_}) is indexed by `{i_}`, a region number not produced by the tree look-up "
+                                 f"(self.tree.region_groups clamps points outside the sample range to the end regions; a hand-made index does not)",
+                                 REL, l_))
+        elif any(isinstance(n, ast.Subscript) and U(n.value) in ("self.slices", "self.cdf_offsets") for n in ast.walk(fm)):
+            obs.append(struct_ob("region-provenance", qual(ci, fm), True, "", REL, fm.lineno))
 
     # ---------------------------------------------------------------- truncation bound
     anf.reset()
